@@ -90,6 +90,8 @@ impl WalIndex {
         fs::rename(&tmp_path, &self.path)?;
         // Make the rename itself durable, as create_new_file does for new WAL files
         if let Some(dir) = std::path::Path::new(&self.path).parent() {
+            #[cfg(feature = "verif")]
+            crate::wal::verif::io_event("fsync_dir", &dir.to_string_lossy(), 0, 0);
             fs::File::open(dir)?.sync_all()?;
         }
         Ok(())
